@@ -19,6 +19,13 @@ TEXT = {
             'stream id that is not in the table raise exactly NoSuchStreamError above the high-water mark and StreamClosedError '
             'below it (C29_lookup_*). Partial: the four calls named above are decided only by the correspondence check and the '
             'oracle on real traces.', 'DESIGN.md section 0 and section 7 C29'),
+    'C13': ('Lean 4 theorems with HPACK as an abstract recorded context: H2Stream.send_headers and push_stream_in_band, for every '
+            'stream state, header list and configuration, either raise with the context untouched or make exactly one encode '
+            'call (of the normalised list) whose output is exactly what the returned HEADERS/PUSH_PROMISE/CONTINUATION frames '
+            'carry, in fragments that fit the frame size; a peer HEADER_TABLE_SIZE change reaches the encoder once. Partial: the '
+            'connection-level wrappers (priority fields, the frame-size assertion, locally_pushed) and the real HPACK coder are '
+            'decided by the correspondence check and by oracle_C13 (independent hpack.Decoder on the real output).',
+            'DESIGN.md section 0 and section 7 C13'),
 }
 DEFAULT_NOTE = ('Trusted: Lean kernel; axioms propext/Classical.choice/Quot.sound only (audited each run); the translators for the '
                 'regenerated parts; the differential harness for the hand-modelled parts of connection.py/stream.py/utilities.py/'
